@@ -291,6 +291,7 @@ func liaBounds(w *World, f *Func, node ast.Expr) (bool, string) {
 	var objs []types.Object
 	kc := keyCtx{e: e, s: &st, objs: &objs}
 	terms := map[string]bool{}
+	liaAxioms = nil
 	var goals []ineq // each must be refuted separately: facts ∧ ¬goal infeasible, with ¬goal given as an ineq
 	switch x := node.(type) {
 	case *ast.IndexExpr:
@@ -324,6 +325,7 @@ func liaBounds(w *World, f *Func, node ast.Expr) (bool, string) {
 		return false, ""
 	}
 	facts := e.liaFacts(w, root, node, kc, terms)
+	facts = append(facts, liaAxioms...)
 	if os.Getenv("YSGOCHECK_LIA_DEBUG") != "" {
 		fmt.Fprintf(os.Stderr, "LIA %s %s\n", w.Pos(node.Pos()), exprStr(node))
 		for _, q := range facts {
